@@ -285,6 +285,8 @@ var tvals = []tval{
 	{v: "plain", typ: (*string)(nil), url: "plain"},
 	{v: "a&", typ: (*string)(nil), url: "a&"},
 	{v: "*m* _e_ `c` \\ <i>", typ: (*string)(nil), url: "*m* _e_ `c` \\ <i>"},
+	// longer than the 512 bytes some writers split at
+	{v: strings.Repeat("kl", 300), typ: (*string)(nil), url: strings.Repeat("kl", 300)},
 }
 
 func tvalGlobals() native.Declarations {
@@ -306,11 +308,20 @@ func tvalVars() map[string]any {
 // valsField: what Show does with each value in each context byte used by the set
 func (fs *fileSet) valsField() string {
 	ctxs := map[byte]bool{}
+	used := map[int]bool{}
 	var walk func(ns []sNode)
 	walk = func(ns []sNode) {
 		for _, n := range ns {
 			if n.kind != 'T' {
 				ctxs[n.c] = true
+				if n.e.kind == 'v' {
+					used[n.e.n] = true
+				}
+				for _, a := range n.e.args {
+					if !a.param {
+						used[a.n] = true
+					}
+				}
 			}
 		}
 	}
@@ -327,6 +338,9 @@ func (fs *fileSet) valsField() string {
 	sort.Ints(cs)
 	var parts []string
 	for id, v := range tvals {
+		if !used[id] {
+			continue
+		}
 		for _, c := range cs {
 			o := rop{c: byte(c), val: rval{v: v.v, url: v.url, bad: v.bad}}
 			o.prepare()
@@ -375,8 +389,44 @@ func (fs *fileSet) build(conv bool) (*scriggo.Template, string) {
 	return t, ""
 }
 
+// failStringWriter also has WriteString (the renderer then does not wrap it)
+type failStringWriter struct{ failWriter }
+
+func (w *failStringWriter) WriteString(s string) (int, error) { return w.Write([]byte(s)) }
+
+// failReaderFromWriter also has ReadFrom, as files and buffered writers do
+type failReaderFromWriter struct{ failWriter }
+
+func (w *failReaderFromWriter) ReadFrom(r io.Reader) (int64, error) {
+	b, err := io.ReadAll(r)
+	if err != nil {
+		return 0, err
+	}
+	n, err := w.Write(b)
+	return int64(n), err
+}
+
+// writerKind: 0 plain io.Writer, 1 with WriteString, 2 with ReadFrom
+var writerKind = 0
+
 func runTemplate(t *scriggo.Template, failAt int) tcResult {
-	w := &failWriter{failAt: failAt}
+	return runTemplateKind(t, failAt, writerKind)
+}
+
+func runTemplateKind(t *scriggo.Template, failAt int, kind int) tcResult {
+	var out io.Writer
+	var w *failWriter
+	switch kind {
+	case 1:
+		sw := &failStringWriter{failWriter{failAt: failAt}}
+		out, w = sw, &sw.failWriter
+	case 2:
+		rw := &failReaderFromWriter{failWriter{failAt: failAt}}
+		out, w = rw, &rw.failWriter
+	default:
+		w = &failWriter{failAt: failAt}
+		out = w
+	}
 	var err error
 	var pv any
 	panicked := true
@@ -386,7 +436,7 @@ func runTemplate(t *scriggo.Template, failAt int) tcResult {
 				pv = recover()
 			}
 		}()
-		err = t.Run(w, tvalVars(), nil)
+		err = t.Run(out, tvalVars(), nil)
 		panicked = false
 	}()
 	r := tcResult{calls: w.calls, chunks: w.chunks, after: w.after}
@@ -442,8 +492,17 @@ var fmtTexts = [][]string{
 	fMarkdown: {"# h ", "*e*", "t ", "- i "},
 }
 
+// texts without tags for HTML bodies of macros whose explicit format differs from the format of
+// the file: after a tag the lexer falls back to the context of the file there (lexer defect,
+// reported to the lexer package), so the context of a following {{ }} would not be the one
+// the generator assigns
+var htmlTextsNoTags = []string{"x", " &amp; ", "y ", "z"}
+
 func (g *gen) text(f int) sNode {
 	d := fmtTexts[f]
+	if g.plainOnly && f == fHTML {
+		d = htmlTextsNoTags
+	}
 	return sNode{kind: 'T', txt: d[g.c.Rng.Intn(len(d))]}
 }
 
@@ -719,6 +778,8 @@ func init() {
 				}
 				continue
 			}
+			writerKind = c.Rng.Intn(3)
+			c.Count(fmt.Sprintf("writer-kind-%d", writerKind))
 			r0 := runTemplate(t, 0)
 			tcLine(c, fs, conv, 0, r0)
 			c.Count("templates")
@@ -743,6 +804,18 @@ func (fs *fileSet) srcMap() map[string]string {
 // at its k-th call gets exactly k calls, Run returns the writer's error, what
 // was accepted is the first k-1 chunks of the successful render.
 func checkWriteFail(c *Ctx, t *scriggo.Template, det func() map[string]any, maxK int) {
+	for kind := 0; kind < 3; kind++ {
+		writerKind = kind
+		checkWriteFailKind(c, t, func() map[string]any {
+			d := det()
+			d["writer"] = []string{"io.Writer", "with WriteString", "with ReadFrom"}[kind]
+			return d
+		}, maxK)
+	}
+	writerKind = 0
+}
+
+func checkWriteFailKind(c *Ctx, t *scriggo.Template, det func() map[string]any, maxK int) {
 	ok := runTemplate(t, 0)
 	c.Count("evaluations")
 	if ok.res != "nil" {
